@@ -58,12 +58,22 @@ class Server(threading.Thread):
     def wait_messages(self, n, timeout=5.0):
         with self.cond: return self.cond.wait_for(lambda: len(self.received) >= n, timeout)
 
-KINDS = [('ssh', 'transport_inactive_first'), ('ssh', 'transport_still_active'), ('tls', None), ('unix', None)]
+KINDS = [('ssh', 'transport_inactive_first'), ('ssh', 'transport_still_active'), ('tls', None), ('unix', None),
+         # the earlier history of the session: a payload that is not XML, for which the device handler's handle_raw_dispatch() hands an
+         # exception back (junos profile; a custom handler class) - a NON-fatal error broadcast, the session goes on - then the loss
+         ('unix', 'after_nonfatal_error/junos'), ('ssh', 'after_nonfatal_error/custom'), ('tls', 'after_nonfatal_error/custom')]
+NOTIF = (b'<notification xmlns="urn:ietf:params:xml:ns:netconf:notification:1.0"><eventTime>2026-01-01T00:00:00Z</eventTime>'
+         b'<ev xmlns="urn:example:e">1</ev></notification>' + DELIM)
 
 def end_case(kind, variant):
     from ncclient import manager
     from ncclient.transport.errors import TransportError
-    dh = manager.make_device_handler({'name': 'default'})
+    nonfatal = (variant or '').startswith('after_nonfatal_error')
+    if nonfatal:
+        from .real_later import make_handler
+        dh = make_handler('junos', None) if variant.endswith('junos') else make_handler('default', 'ValueError')
+    else:
+        dh = manager.make_device_handler({'name': 'default'})
     a, b = socket.socketpair(socket.AF_UNIX, socket.SOCK_STREAM)
     srv = Server(b); srv.start()
     transport = None
@@ -87,6 +97,14 @@ def end_case(kind, variant):
             try: res[slot] = ('value', m.get_config(source='running'))
             except BaseException as e: res[slot] = ('error', e)
             res[slot + '_t'] = time.monotonic() - t0; res[slot + '_end'] = time.monotonic()
+        if nonfatal:
+            from .lts import HOSTILE
+            for v in (0, 3):
+                try: b.sendall(HOSTILE[v].encode('utf-8') + DELIM + NOTIF)
+                except OSError: return None
+                if m.take_notification(True, 2.0) is None: time.sleep(0.2)     # the notification behind it was dispatched: the payload too
+            if not (ses.connected and ses.is_alive()):
+                return None                   # the session did not survive the payload (C14's business): no later loss to judge
         th = threading.Thread(target=call, args=('first',), daemon=True); th.start()
         if not srv.wait_messages(2):
             return '%s: the request never reached the peer' % tag
